@@ -207,6 +207,10 @@ func tokenStoreDump(e *env, lim *limit.TokenLimiter, nowMs int64) string {
 }
 
 func runToken(path []TOp, verbose bool) runResult {
+	return stable(fmt.Sprint(path), verbose, func(v bool) runResult { return runTokenOnce(path, v) })
+}
+
+func runTokenOnce(path []TOp, verbose bool) runResult {
 	if len(path) == 0 {
 		return runResult{key: "root"}
 	}
@@ -242,7 +246,8 @@ func runToken(path []TOp, verbose bool) runResult {
 					return
 				}
 				before := state(o.I)
-				got := lims[o.I].AllowN(now, o.N)
+				var got bool
+				e.counted(func() { got = lims[o.I].AllowN(now, o.N) })
 				vsched.Quiesce()
 				after := state(o.I)
 				if verbose {
